@@ -73,9 +73,7 @@ def trimRight (s : Bytes) : Bytes := (dropSpaceRev s.reverse).reverse
 /-- `bytes.TrimSpace` -/
 def trimSpace (s : Bytes) : Bytes := trimRight (trimLeft s)
 
-/-- `bytes.Join(bytes.Fields(s), nil)`: delete every encoded white-space rune.  (A rune that is
-    not white space is kept; advancing by one byte instead of the rune's width is equivalent,
-    because no white-space encoding starts with a continuation byte.) -/
+/-- length of the encoded white-space rune the string starts with (0: none) -/
 def spaceLen : Bytes → Nat
   | [] => 0
   | a :: r =>
@@ -88,6 +86,19 @@ def spaceLen : Bytes → Nat
           | [] => 0
           | c :: _ => if isSpace3 a b c then 3 else 0
 
+/-- the same on the reversed string: length of the encoded white-space rune the string ends with -/
+def spaceLenRev : Bytes → Nat
+  | [] => 0
+  | a :: r =>
+    if isAsciiSpace a then 1
+    else match r with
+      | [] => 0
+      | b :: r2 =>
+        if isSpace2 b a then 2
+        else match r2 with
+          | [] => 0
+          | c :: _ => if isSpace3 c b a then 3 else 0
+
 /-- `removeSpacesAux k s`: skip `k` bytes, then delete white space -/
 def removeSpacesAux : Nat → Bytes → Bytes
   | _, [] => []
@@ -97,6 +108,9 @@ def removeSpacesAux : Nat → Bytes → Bytes
     | 0 => a :: removeSpacesAux 0 r
     | n + 1 => removeSpacesAux n r
 
+/-- `bytes.Join(bytes.Fields(s), nil)`: delete every encoded white-space rune.  (A rune that is
+    not white space is kept; advancing by one byte instead of the rune's width is equivalent,
+    because no white-space encoding starts with a continuation byte.) -/
 def removeSpaces (s : Bytes) : Bytes := removeSpacesAux 0 s
 
 /-! ### lines -/
